@@ -224,7 +224,7 @@ fn synth(cmd: &str, args: &[String]) -> i32 {
 	let c07s = |s: &gen::Spec, p: &Progress| -> Outcome { slpp_oracles::c07s(s, p, only.as_deref()) };
 	let c10s = |s: &gen::Spec, p: &Progress| -> Outcome { slpp_oracles::c10s(s, p, only.as_deref()) };
 	let c09 = |s: &gen::Spec, p: &Progress| -> Outcome { c09::c09(s, p, only.as_deref()) };
-	let c07 = |s: &gen::Spec, p: &Progress| -> Outcome { oracles::c07(s, p, if searching { None } else { a1.as_ref().and_then(|x| x.parse().ok()) }) };
+	let c07 = |s: &gen::Spec, p: &Progress| -> Outcome { oracles::c07(s, p, if searching { None } else { a1.as_deref() }) };
 	let check: oracles::Check = match name {
 		"c03" => &oracles::c03,
 		"c04" => &oracles::c04,
